@@ -587,12 +587,14 @@ class Server(utils.EventEmitter):
                 self.send_response(bearer, response)
             except Exception:
                 logger.exception(color("!!! Exception in handler:", "red"))
-                response = att.ATT_Error_Response(
-                    request_opcode_in_error=att_pdu.op_code,
-                    attribute_handle_in_error=0x0000,
-                    error_code=att.ATT_UNLIKELY_ERROR_ERROR,
-                )
-                self.send_response(bearer, response)
+                if att_pdu.op_code in att.ATT_REQUESTS:
+                    # Only requests are answered
+                    response = att.ATT_Error_Response(
+                        request_opcode_in_error=att_pdu.op_code,
+                        attribute_handle_in_error=0x0000,
+                        error_code=att.ATT_UNLIKELY_ERROR_ERROR,
+                    )
+                    self.send_response(bearer, response)
                 raise
         else:
             # No specific handler registered
@@ -1208,7 +1210,9 @@ class Server(utils.EventEmitter):
         See Bluetooth spec Vol 3, Part F - 3.4.7.3 Handle Value Confirmation
         '''
         del confirmation  # Unused.
-        if (pending_confirmation := self.pending_confirmations[bearer]) is None:
+        if (
+            pending_confirmation := self.pending_confirmations.get(bearer)
+        ) is None or pending_confirmation.done():
             # Not expected!
             logger.warning(
                 '!!! unexpected confirmation, there is no pending indication'
